@@ -127,6 +127,32 @@ class Test:
         self.kind, self.of, self.neg = kind, of, neg
 
 
+class Ordering:
+    def __init__(self, which):
+        self.which = which
+
+    def __repr__(self):
+        return "Ordering::" + self.which
+
+
+class IntRange:
+    """an integer known only to lie in [lo, hi]"""
+    def __init__(self, lo, hi):
+        self.lo, self.hi = lo, hi
+
+    def __repr__(self):
+        return f"{self.lo}..={self.hi}"
+
+
+class IntV:
+    """the integer image of a cell (into_u64 / into_i64): parity known, sign known to be non-negative or unknown"""
+    def __init__(self, parity, nonneg):
+        self.parity, self.nonneg = parity, nonneg
+
+    def __repr__(self):
+        return f"int(parity {self.parity}{'' if self.nonneg else ', sign unknown'})"
+
+
 class Top:
     def __init__(self, why=""):
         self.why = why
@@ -141,7 +167,7 @@ class CellBase(Interp):
     def __init__(self, ast, w, fk):
         super().__init__()
         self.ast, self.w, self.fk = ast, w, fk
-        self.fns = {f["name"]: f["node"] for f in ast.find_fns(LIB) if f["container"] == "trait CellType" and f["node"].get("body") is not None}
+        self.fns = trait_fns(ast, w)
         self.depth = 0
         self.summarise = {}
 
@@ -231,6 +257,27 @@ class CellBase(Interp):
                 return ((recv if self.decide(self.apply_closure(args[0], [recv.v])) else NONE) if recv.some else NONE,)
         return None
 
+    def call_value(self, f, args, node):
+        from itereval import ClosureV
+        if isinstance(f, ClosureV):
+            return self.apply_closure(f, args)
+        raise Unanalysable("call of a local value")
+
+    def match_path(self, name, val, node):
+        if isinstance(val, Ordering):
+            return name.split("::")[-1] == val.which
+        raise Unanalysable(f"pattern {name} against {val!r}")
+
+    def ordering(self, a, b):
+        """a.cmp(&b) for values whose order is decided"""
+        lt = self.binary("<", a, b, None)
+        lt = self.decide(lt) if not isinstance(lt, bool) else lt
+        if lt:
+            return Ordering("Less")
+        eq = self.binary("==", a, b, None)
+        eq = self.decide(eq) if not isinstance(eq, bool) else eq
+        return Ordering("Equal" if eq else "Greater")
+
     def cond(self, c, env):
         c = strip_paren(c)
         if c["t"] == "Binary" and c["op"] == "&&":
@@ -265,6 +312,15 @@ class CellBase(Interp):
         if t == "Closure":
             from itereval import ClosureV
             return ClosureV(e, env)
+        if t == "MethodCall" and e["method"] in ("rev", "into_iter", "iter") and not e["args"]:
+            v = self.eval(e["receiver"], env)
+            if isinstance(v, list):
+                return list(reversed(v)) if e["method"] == "rev" else v
+            raise Unanalysable(f".{e['method']}() on {v!r}")
+        if t == "MethodCall" and e["method"] == "cmp" and len(e["args"]) == 1:
+            return self.ordering(self.eval(e["receiver"], env), self.eval(e["args"][0], env))
+        if t == "Tuple":
+            return Tup([self.eval(x, env) for x in e["elems"]])
         if t == "MethodCall" and e["method"] in ("then", "then_some", "map", "and_then", "filter"):
             recv = self.eval(e["receiver"], env)
             args = [self.eval(a, env) for a in e["args"]]
@@ -295,6 +351,7 @@ class PowInterp(CellBase):
     def __init__(self, ast, w, fk):
         super().__init__(ast, w, fk)
         self.sub = {}          # refinements of exponent symbols decided on this path: symbol -> polynomial
+        self.bits = False      # the exponent operand is a sum of bit atoms b_j * 2^j (used when a counted loop walks the bits)
         self.fresh = 0
         self.facts = []        # ('one', x): B^x = 1 on this path
         self.loop_notes = []
@@ -309,9 +366,23 @@ class PowInterp(CellBase):
                 p = psubst(p, var, repl)
         return p
 
+    def shr_bits(self, ex, by):
+        """floor(e / 2^by) for e = c + sum of c_j * b_j over bit atoms: exact when the low part (coefficients not divisible by 2^by) cannot reach 2^by"""
+        e = self.norm(ex.e)
+        low = sum(v for k, v in e.t.items() if v % (1 << by))
+        if any(v < 0 for v in e.t.values()) or any(k != () and not (len(k) == 1 and k[0].startswith("b_")) for k in e.t) or low >= (1 << by):
+            return None
+        return Poly({k: v >> by for k, v in e.t.items() if v % (1 << by) == 0})
+
     def parity(self, ex):
         """refine the exponent polynomial to a known parity: -> (q polynomial, r in {0,1})"""
         e = self.norm(ex.e)
+        if self.bits:
+            odd = [(k, v) for k, v in e.t.items() if v % 2]
+            if len(odd) == 1 and len(odd[0][0]) == 1 and odd[0][0][0].startswith("b_") and odd[0][1] == 1:
+                r = self.fk.choose(2)
+                self.sub[odd[0][0][0]] = Poly.const(r)
+                e = self.norm(e)
         consts = e.t.get((), 0)
         rest = Poly({k: v for k, v in e.t.items() if k != ()})
         if all(v % 2 == 0 for v in rest.t.values()):
@@ -385,6 +456,12 @@ class PowInterp(CellBase):
                 return K(0 if by >= w else recv.c >> by, w)
             if isinstance(recv, Ex):
                 ex = recv
+                if by >= w:
+                    return Ex(Poly())
+                if self.bits:
+                    q = self.shr_bits(ex, by)
+                    if q is not None:
+                        return Ex(q)
                 for _ in range(by):
                     q, _r = self.parity(ex)
                     ex = Ex(q)
@@ -405,7 +482,7 @@ class PowInterp(CellBase):
                 return K(a.c & b.c, w)
             return Top("bit mask")
         if name == "trailing_zeros":
-            return Top("trailing zeros")
+            return TzOf(recv) if isinstance(recv, Ex) else Top("trailing zeros")
         raise Unanalysable(f"method .{name}()")
 
     def call(self, name, targs, args, node):
@@ -419,6 +496,13 @@ class PowInterp(CellBase):
         raise Unanalysable(f"call {name}")
 
     def binary(self, op, l, r, node):
+        if op in ("==", "!=", ">", "<") and (isinstance(l, TzOf) or isinstance(r, TzOf)):
+            t, o, left = (l, r, True) if isinstance(l, TzOf) else (r, l, False)
+            if o == 0 and op in ("==", "!="):
+                return Test("odd", t.of, op == "!=")          # no trailing zero <=> odd
+            if o == 0 and ((op == ">" and left) or (op == "<" and not left)):
+                return Test("odd", t.of, True)
+            raise Unanalysable("trailing zeros of the exponent compared with something else than 0")
         if op in ("==", "!="):
             neg = op == "!="
             for a, b in ((l, r), (r, l)):
@@ -444,9 +528,86 @@ class PowInterp(CellBase):
     def eval(self, e, env):
         if e["t"] == "While" and strip_paren(e["cond"])["t"] != "Let":
             return self.summarise_loop(e, env)
-        if e["t"] in ("Loop", "ForLoop"):
-            raise Unanalysable("only a `while` over the exponent is summarised")
+        if e["t"] == "Loop":
+            return self.summarise_loop(e, env)
+        if e["t"] == "ForLoop":
+            if not self.bits:
+                raise NeedBits()
+            return self.unrolled_for(e, env)
+        if e["t"] == "If" and strip_paren(e["cond"])["t"] != "Let" and self.bits:
+            r = self.if_converted(e, env)
+            if r is not None:
+                return r[0]
         return super().eval(e, env)
+
+    # -------------------------------------------------------------- counted loops over the exponent's bits
+    def unrolled_for(self, e, env):
+        """a `for` over a range of known integers (the bit positions) is unrolled; the exponent is a sum of bit atoms, and a branch on
+        one bit is folded into the exponent polynomial instead of being forked (if_converted)"""
+        it_ = self.eval(e["expr"], env)
+        if not isinstance(it_, list) or len(it_) > 130:
+            raise Unanalysable("for loop over something else than a known range")
+        for v in it_:
+            scope = env.child()
+            if not self.match(e["pat"], v, scope):
+                raise Unanalysable("for pattern")
+            try:
+                self.exec_block(e["body"], scope)
+            except BreakEx:
+                break
+            except ContinueEx:
+                continue
+        return UNIT
+
+    def bit_of(self, t):
+        """the bit atom a parity test depends on, or None"""
+        if not (isinstance(t, Test) and t.kind == "odd" and isinstance(t.of, Ex)):
+            return None
+        e = self.norm(t.of.e)
+        odd = [(k, v) for k, v in e.t.items() if v % 2]
+        if len(odd) == 1 and len(odd[0][0]) == 1 and odd[0][0][0].startswith("b_"):
+            return odd[0][0][0], t.neg
+        return None
+
+    def if_converted(self, e, env):
+        """`if <bit b of exp> { A } else { B }` with A and B changing only cell variables: both branches are evaluated and every variable becomes
+        B^(b*x_A + (1-b)*x_B).  -> (UNIT,) or None when the condition is not a test of one bit"""
+        c = strip_paren(e["cond"])
+        probe = PowInterp(self.ast, self.w, self.fk)
+        probe.bits, probe.sub, probe.fresh = True, dict(self.sub), self.fresh
+        try:
+            t = probe.eval(c, snapshot(env))
+        except (Unanalysable, Reached):
+            return None
+        hit = self.bit_of(t)
+        if hit is None:
+            return None
+        b, neg = hit
+        envs = []
+        for take in (True, False):
+            e2 = snapshot(env)
+            if take != neg:
+                self.exec_block(e["then"], e2)
+            elif e.get("else") is not None:
+                el = e["else"]
+                if el["t"] == "BlockExpr":
+                    self.exec_block(el["block"], e2)
+                else:
+                    self.eval(el, e2)
+            envs.append(e2)
+        bp = Poly.var(b)
+        for name in env_names(env):
+            v1, v0 = envs[0].get(name), envs[1].get(name)
+            if v1 is v0:
+                continue
+            x1 = v1.x if isinstance(v1, Pw) else Poly() if isinstance(v1, K) and v1.c == 1 else None
+            x0 = v0.x if isinstance(v0, Pw) else Poly() if isinstance(v0, K) and v0.c == 1 else None
+            if x1 is None or x0 is None:
+                if repr(v1) == repr(v0):
+                    continue
+                raise Unanalysable(f"a branch on one exponent bit changes {name} into {v1!r} / {v0!r}")
+            env.assign(name, Pw(bp * x1 + (Poly.const(1) - bp) * x0))
+        return (UNIT,)
 
     def summarise_loop(self, e, env):
         changed = []
@@ -469,6 +630,7 @@ class PowInterp(CellBase):
 
         def one(fk):
             it = PowInterp(self.ast, self.w, fk)
+            it.bits = self.bits
             scope = Env()
             for name_ in env_names(env):
                 if name_ not in changed:
@@ -478,7 +640,7 @@ class PowInterp(CellBase):
             scope.bind(ev, Ex(Poly.var("e")))
             exit_ = None
             try:
-                if not it.cond(e["cond"], scope):
+                if e["t"] == "While" and not it.cond(e["cond"], scope):
                     return ("exit", it, scope)
                 it.exec_block(e["body"], scope)
             except BreakEx:
@@ -512,9 +674,20 @@ class PowInterp(CellBase):
                         report.append(f"after one iteration {', '.join(f'{v} = {vals[v]!r}' for v in vals)}")
                         continue
                     after = it.norm(vals[r].x + vals[s].x * vals[ev].e)
+                    if kind == "break" and after != before:
+                        # B^F = 1 is known on this path (the branch `x == ONE` was taken): exponents that differ by F * g, g of one sign, are equal
+                        for f_ in it.facts:
+                            if f_[0] == "one" and len(f_[1].t) == 1:
+                                (mono, c), = f_[1].t.items()
+                                d_ = before - after
+                                if c > 0 and mono and all(all(x in m for x in mono) and v % c == 0 for m, v in d_.t.items()) and \
+                                        (all(v > 0 for v in d_.t.values()) or all(v < 0 for v in d_.t.values())):
+                                    after = before
+                                    break
                     if after != before:
                         ok = False
-                        report.append(f"one iteration does not preserve {r} * {s}^{ev}: B^({before}) becomes B^({after})")
+                        report.append(f"one iteration does not preserve {r} * {s}^{ev}: B^({before}) becomes B^({after})" if kind != "break" else
+                                      f"leaving the loop early loses a factor: {r} * {s}^{ev} = B^({before}) before the iteration, B^({after}) at the exit")
                         continue
                     if kind != "break":
                         # progress: the exponent shrinks (e = 2q + r >= 1 becomes q): the difference has no negative coefficient and is not zero
@@ -526,7 +699,10 @@ class PowInterp(CellBase):
                     if kind == "break":
                         # leaving early is sound when nothing remains to be multiplied in: the exponent is zero, or the
                         # remaining factor is known to be 1 (B^(x_s) = 1 on this path)
-                        if it.norm(vals[ev].e).t and ("one", it.norm(vals[s].x)) not in it.facts:
+                        one_s = any(f_[0] == "one" and len(f_[1].t) == 1 and len(it.norm(vals[s].x).t) == 1 and
+                                    list(f_[1].t)[0] == list(it.norm(vals[s].x).t)[0] and list(it.norm(vals[s].x).t.values())[0] % list(f_[1].t.values())[0] == 0
+                                    for f_ in it.facts)
+                        if it.norm(vals[ev].e).t and not one_s:
                             ok = False
                             report.append("the loop is left early (break) while exponent bits remain and the remaining factor is not known to be 1")
                     # progress: the exponent must shrink
@@ -551,6 +727,23 @@ class LoopFail(Exception):
     pass
 
 
+class NeedBits(Exception):
+    """a counted loop walks the exponent: re-run with the exponent as a sum of bit atoms"""
+
+
+class TzOf:
+    def __init__(self, of):
+        self.of = of
+
+
+def snapshot(env):
+    """a flat copy of the visible bindings (values are immutable)"""
+    e2 = Env()
+    for n in env_names(env):
+        e2.bind(n, env.get(n))
+    return e2
+
+
 def env_names(env):
     out = []
     e = env
@@ -562,20 +755,28 @@ def env_names(env):
 
 def check_pow(ast, w):
     """-> (problems, notes) for wrapping_pow at width w"""
-    fn = [f for f in ast.find_fns(LIB) if f["container"] == "trait CellType" and f["name"] == "wrapping_pow"]
-    if len(fn) != 1:
+    fn = _fn(ast, "wrapping_pow", w)
+    if fn is None:
         return ["CellType::wrapping_pow not found"], []
-    fn = fn[0]["node"]
     ps = [p for p in fn["sig"]["inputs"] if p["t"] != "Receiver"]
     if len(ps) != 1 or ps[0]["pat"]["t"] != "PIdent":
         return ["wrapping_pow(self, exp): unexpected parameters"], []
     probs, notes = [], []
 
+    mode = {"bits": False}
+
     def run(fk):
         it = PowInterp(ast, w, fk)
+        it.bits = mode["bits"]
         env = Env()
         env.bind("self", Pw(Poly.const(1)))
-        env.bind(ps[0]["pat"]["name"], Ex(Poly.var("E")))
+        E = Poly.var("E")
+        if mode["bits"]:
+            E = Poly()
+            for j in range(w):
+                E = E + Poly.var(f"b_{j:02d}") * Poly.const(1 << j)
+        env.bind(ps[0]["pat"]["name"], Ex(E))
+        it.want = E
         try:
             try:
                 v = it.exec_block(fn["body"], env)
@@ -593,14 +794,22 @@ def check_pow(ast, w):
             return f"returns {v!r}, not a power of the base", it
         x = it.norm(v.x)
         # on a path where E was refined (e.g. tested zero before the loop) compare under the refinement
-        want = it.norm(Poly.var("E"))
+        want = it.norm(it.want)
         if x != want:
             return f"returns B^({x}), the contract requires B^({want}) (E = the exponent operand)", it
         return None, it
-    for p, it in all_runs(run):
-        if p:
-            probs.append(p)
-        notes.extend(it.loop_notes)
+    try:
+        for p, it in all_runs(run):
+            if p:
+                probs.append(p)
+            notes.extend(it.loop_notes)
+    except NeedBits:
+        mode["bits"] = True
+        probs, notes = [], ["exponent as a sum of bit atoms; counted loop unrolled, one-bit branches folded into the exponent"]
+        for p, it in all_runs(run):
+            if p:
+                probs.append(p)
+            notes.extend(it.loop_notes)
     return sorted(set(probs)), sorted(set(notes))
 
 
@@ -708,6 +917,8 @@ class AdicInterp(CellBase):
     def cell(self, v):
         if isinstance(v, K):
             return Cell(Poly.const(v.c))
+        if not isinstance(v, Cell):
+            raise Unanalysable(f"{v!r} used as a cell")
         return v
 
     def const_of(self, v):
@@ -830,6 +1041,14 @@ class AdicInterp(CellBase):
             if c is not None:
                 return w if c == 0 else (c & -c).bit_length() - 1
             raise Unanalysable(f"trailing_zeros of {a!r}")
+        if name in ("into_u64", "into_i64"):
+            par = self.parity_of(self.cell(recv))
+            if par is None:
+                raise Unanalysable(f".{name}() of a value of unknown parity")
+            c = self.const_of(recv)
+            if c is not None:
+                return c if name == "into_u64" or c < (1 << (w - 1)) else c - (1 << w)
+            return IntV(par, name == "into_u64")
         if name == "is_odd":
             par = self.parity_of(self.cell(recv))
             if par is None:
@@ -870,6 +1089,25 @@ class AdicInterp(CellBase):
             if par == 1:
                 return op == "!="
             raise Unanalysable(f"equality of {a!r} and {b!r}")
+        if isinstance(l, IntV) or isinstance(r, IntV):
+            v, o, left = (l, r, True) if isinstance(l, IntV) else (r, l, False)
+            if op in ("%", "&") and left and isinstance(o, int) and o in ((2,) if op == "%" else (1,)):
+                if v.parity == 0 or v.nonneg or op == "&":
+                    return v.parity
+                return -1 if self.fk.choose(2) else 1         # the remainder of a negative odd number is -1
+            raise Unanalysable(f"operator {op} on {l!r}, {r!r}")
+        if isinstance(l, IntRange) or isinstance(r, IntRange):
+            a = (l.lo, l.hi) if isinstance(l, IntRange) else (l, l)
+            b = (r.lo, r.hi) if isinstance(r, IntRange) else (r, r)
+            if not all(isinstance(x, int) and not isinstance(x, bool) for x in a + b) or op not in ("<", "<=", ">", ">=", "==", "!="):
+                raise Unanalysable(f"operator {op} on {l!r}, {r!r}")
+            cases = {"<": (a[1] < b[0], a[0] >= b[1]), "<=": (a[1] <= b[0], a[0] > b[1]), ">": (a[0] > b[1], a[1] <= b[0]), ">=": (a[0] >= b[1], a[1] < b[0]),
+                     "==": (a[0] == a[1] == b[0] == b[1], a[1] < b[0] or b[1] < a[0]), "!=": (a[1] < b[0] or b[1] < a[0], a[0] == a[1] == b[0] == b[1])}[op]
+            if cases[0]:
+                return True
+            if cases[1]:
+                return False
+            raise Unanalysable(f"{l!r} {op} {r!r} is not decided")
         if isinstance(l, TzN) or isinstance(r, TzN):
             t, o, flip = (l, r, False) if isinstance(l, TzN) else (r, l, True)
             if not (isinstance(o, int) and o == t.s):
@@ -893,17 +1131,44 @@ class AdicInterp(CellBase):
         raise Unanalysable("undecided test")
 
 
-def _fn(ast, name):
+def trait_fns(ast, w):
+    """the provided methods of CellType as they apply at width w: the trait's default bodies, replaced by the override of `impl CellType for u<w>`
+    where one exists (only provided methods are followed; the required ones are the primitives whose meaning CELL-DELEGATE establishes)"""
+    fns = {f["name"]: f["node"] for f in ast.find_fns(LIB) if f["container"] == "trait CellType" and f["node"].get("body") is not None}
+    for f in ast.find_fns(LIB):
+        if f["container"].replace(" ", "") == f"implCellTypeforu{w}" and f["name"] in fns and f["node"].get("body") is not None:
+            fns[f["name"]] = f["node"]
+    return fns
+
+
+def _fn(ast, name, w=None):
+    if w is not None:
+        return trait_fns(ast, w).get(name)
     fn = [f for f in ast.find_fns(LIB) if f["container"] == "trait CellType" and f["name"] == name]
     return fn[0]["node"] if len(fn) == 1 else None
 
 
 def run_case(ast, w, fnname, setup):
-    """evaluate fnname under one case; setup(it) -> dict of parameter values (self first). -> (value or problem string, it)"""
-    fn = _fn(ast, fnname)
+    """evaluate fnname under one case along every undecided branch; -> (value or problem string, it) of the first run that
+    ends in a problem string, else of the last run (callers judge the value; see run_case_all for all runs)"""
+    runs = run_case_all(ast, w, fnname, setup)
+    for v, it in runs:
+        if isinstance(v, str):
+            return v, it
+    return runs[-1]
+
+
+def run_case_all(ast, w, fnname, setup):
+    out = []
+    for r in all_runs(lambda fk: run_case_one(ast, w, fnname, setup, fk), cap=64):
+        out.append(r)
+    return out
+
+
+def run_case_one(ast, w, fnname, setup, fk):
+    fn = _fn(ast, fnname, w)
     if fn is None:
         return f"CellType::{fnname} not found", None
-    fk = Forks()
     it = AdicInterp(ast, w, fk)
     vals = setup(it)
     env = Env()
@@ -934,14 +1199,14 @@ def check_inv_case(ast, w, tag):
             it.shr_ok[(repr(Poly.var("a")), 0)] = Poly.var("a")
             it.nonzero = {repr(Poly.var("a")): True}
             return [Cell(Poly.var("a"))]
-        v, it = run_case(ast, w, "wrapping_inv", odd)
-        if isinstance(v, str):
-            return f"odd operand: {v}"
-        if not (isinstance(v, Opt) and v.some and isinstance(it.cell(v.v), Cell)):
-            return f"odd operand: returns {v!r}, an inverse exists"
-        t = it.content(Poly.var("a") * it.cell(v.v).p - Poly.const(1))
-        if t < w:
-            return f"odd operand: self * result - 1 is only known to be divisible by 2^{t}, the contract requires 2^{w}"
+        for v, it in run_case_all(ast, w, "wrapping_inv", odd):
+            if isinstance(v, str):
+                return f"odd operand: {v}"
+            if not (isinstance(v, Opt) and v.some and isinstance(v.v, (Cell, K))):
+                return f"odd operand: returns {v!r}, an inverse exists"
+            t = it.content(Poly.var("a") * it.cell(v.v).p - Poly.const(1))
+            if t < w:
+                return f"odd operand: self * result - 1 is only known to be divisible by 2^{t}, the contract requires 2^{w}"
         return None
 
     def even(it):
@@ -950,13 +1215,14 @@ def check_inv_case(ast, w, tag):
             return [Cell(Poly())]
         it.even = frozenset({"a"})
         it.nonzero = {repr(Poly.var("a")): True}
+        it.tz[repr(Poly.var("a"))] = IntRange(1, w - 1)
         return [Cell(Poly.var("a"))]
-    v, it = run_case(ast, w, "wrapping_inv", even)
     what = "operand 0" if tag == "zero" else "even non-zero operand"
-    if isinstance(v, str):
-        return f"{what}: {v}"
-    if not (isinstance(v, Opt) and not v.some):
-        return f"{what}: returns {v!r}, no inverse exists"
+    for v, it in run_case_all(ast, w, "wrapping_inv", even):
+        if isinstance(v, str):
+            return f"{what}: {v}"
+        if not (isinstance(v, Opt) and not v.some):
+            return f"{what}: returns {v!r}, no inverse exists"
     return None
 
 
@@ -991,18 +1257,26 @@ def check_div_cases(ast, w):
                         it.odd.add("n")
                 it._n, it._d = npoly, dpoly
                 return [Cell(npoly), Cell(dpoly)]
-            v, it = run_case(ast, w, "wrapping_div", setup)
             tag = f"tz(d) = {s}, " + {"zero": "n = 0", "lt": "n != 0, tz(n) < tz(d)", "eq": "n != 0, tz(n) = tz(d)", "gt": "n != 0, tz(n) > tz(d)"}[case]
+            prob = None
+            for v, it in run_case_all(ast, w, "wrapping_div", setup):
+                prob = judge_div(v, it, case, w, m)
+                if prob:
+                    break
+            yield tag, prob
+
+
+def judge_div(v, it, case, w, m):
             prob = None
             if isinstance(v, str):
                 prob = v
             elif case == "zero":
-                if not (isinstance(v, Opt) and v.some and it.const_of(it.cell(v.v)) == 0):
+                if not (isinstance(v, Opt) and v.some and isinstance(v.v, (Cell, K)) and it.const_of(it.cell(v.v)) == 0):
                     prob = f"returns {v!r}, the smallest solution is Some(0)"
             elif case == "lt":
                 if not (isinstance(v, Opt) and not v.some):
                     prob = f"returns {v!r}, no solution exists"
-            elif not (isinstance(v, Opt) and v.some and isinstance(it.cell(v.v), Cell)):
+            elif not (isinstance(v, Opt) and v.some and isinstance(v.v, (Cell, K))):
                 prob = f"returns {v!r}, a solution exists"
             else:
                 x = it.cell(v.v)
@@ -1011,7 +1285,7 @@ def check_div_cases(ast, w):
                     prob = f"result * d - n is only known to be divisible by 2^{t}, the contract requires 2^{w}"
                 elif m < w and not (x.lt is not None and x.lt <= (1 << m)):
                     prob = f"the result is not reduced below 2^{m}: it need not be the smallest solution"
-            yield tag, prob
+            return prob
 
 
 def run_cell_algebra(res, ast):
@@ -1036,14 +1310,14 @@ def run_cell_algebra(res, ast):
     for w in WIDTHS:
         if fnode["wrapping_pow"] is not None:
             probs, nt = check_pow(ast, w)
-            res.check(not probs, "POW-INVARIANT", f"{LIB}|CellType::wrapping_pow|u{w}", where(LIB, fnode["wrapping_pow"], "CellType::wrapping_pow"),
+            res.check(not probs, "POW-INVARIANT", f"{LIB}|CellType::wrapping_pow|u{w}", where(LIB, _fn(ast, "wrapping_pow", w), "CellType::wrapping_pow"),
                       f"u{w}: wrapping_pow does not compute base^exp: " + "; ".join(probs[:2]), detail={"loop": nt})
         if fnode["wrapping_inv"] is not None:
-            fn = fnode["wrapping_inv"]
+            fn = _fn(ast, "wrapping_inv", w)
             for tag in ("odd", "even", "zero"):
                 p = check_inv_case(ast, w, tag)
                 res.check(not p, "INV-CONTRACT", f"{LIB}|CellType::wrapping_inv|u{w}|{tag}", where(LIB, fn, "CellType::wrapping_inv"), f"u{w}, {p}")
         if fnode["wrapping_div"] is not None:
-            fn = fnode["wrapping_div"]
+            fn = _fn(ast, "wrapping_div", w)
             for tag, p in check_div_cases(ast, w):
                 res.check(not p, "DIV-CONTRACT", f"{LIB}|CellType::wrapping_div|u{w}|{tag}", where(LIB, fn, "CellType::wrapping_div"), f"u{w}, {tag}: {p}")
